@@ -137,4 +137,74 @@ func InjectJarMember(path string) ([]byte, error) {
 	return buf.Bytes(), nil
 }
 
+// ForgeDuplicateSection: in a signed jar, replace the content of one member and insert, BEFORE that member's section in
+// MANIFEST.MF, a second section of the same name carrying the digest of the new content. The .SF and the signature
+// block are left as they are. Whatever a verifier does with a repeated name, it must not end up checking the file
+// against one section and the .SF against the other.
+func ForgeDuplicateSection(path string) ([]byte, error) {
+	zr, err := zip.OpenReader(path)
+	if err != nil {
+		return nil, err
+	}
+	defer zr.Close()
+	var manifest []byte
+	for _, f := range zr.File {
+		if f.Name == "META-INF/MANIFEST.MF" {
+			rc, _ := f.Open()
+			manifest, _ = io.ReadAll(rc)
+			rc.Close()
+		}
+	}
+	if manifest == nil || !bytes.Contains(manifest, []byte("SHA-256-Digest")) {
+		return nil, fmt.Errorf("no manifest with SHA-256 digests")
+	}
+	nl := "\r\n"
+	if !bytes.Contains(manifest, []byte("\r\n")) {
+		nl = "\n"
+	}
+	secs := manifestSections(manifest)
+	victim, at := "", -1
+	for i, sec := range secs[1:] {
+		first := strings.SplitN(string(sec), nl, 2)[0]
+		if strings.HasPrefix(first, "Name: ") && len(first) < 70 && !strings.HasPrefix(first, "Name: META-INF/") {
+			victim, at = strings.TrimPrefix(first, "Name: "), i+1
+			break
+		}
+	}
+	if victim == "" {
+		return nil, fmt.Errorf("no per-file section to duplicate")
+	}
+	forgedContent := []byte("content swapped after signing\n")
+	forged := []byte("Name: " + victim + nl + "SHA-256-Digest: " + b64sum(forgedContent) + nl + nl)
+	var nm []byte
+	for i, sec := range secs {
+		if i == at {
+			nm = append(nm, forged...)
+		}
+		nm = append(nm, sec...)
+	}
+	var buf bytes.Buffer
+	zw := zip.NewWriter(&buf)
+	seen := false
+	for _, f := range zr.File {
+		rc, _ := f.Open()
+		b, _ := io.ReadAll(rc)
+		rc.Close()
+		switch f.Name {
+		case "META-INF/MANIFEST.MF":
+			b = nm
+		case victim:
+			b = forgedContent
+			seen = true
+		}
+		w, _ := zw.CreateHeader(&zip.FileHeader{Name: f.Name, Method: zip.Deflate})
+		w.Write(b)
+	}
+	zw.Close()
+	if !seen {
+		return nil, fmt.Errorf("member %s named by the manifest is not in the archive", victim)
+	}
+	return buf.Bytes(), nil
+}
+
 var _ = os.ReadFile
